@@ -13,9 +13,16 @@ echo "demo clean rc=$RC0 mutated rc=$RC1 baseline rc=$RCB"
 if [ $RC0 -ne 0 ] || [ $RC1 -eq 0 ] || [ $RCB -ne 0 ]; then echo "SEED REJECTED"; exit 1; fi
 D=/verif/seeded/$P-${TAG:-}$M; mkdir -p $D; cp $SD/patch.diff $SD/demo.py $D/; cp $SD/meta.json $D/meta.agent.json
 echo "== check against the change (applied to /repo, reverted afterwards)"
+if [ -n "${DEV:-}" ]; then
+  # while a sweep is using /repo: run the check against the scratch worktree instead (evidence/replays go to /tmp/symx_dev_out)
+  cd $WT && git apply $D/patch.diff || { echo "PATCH DOES NOT APPLY"; exit 9; }
+  cd /verif && SYMX_DEV_TREE=$WT timeout 3000 ./check $P --tier quick > $D/check_quick.log 2>&1; RCC=$?
+  cd $WT && git checkout -q -- .
+else
 cd /repo && git apply $D/patch.diff || { echo "PATCH DOES NOT APPLY TO /repo"; exit 9; }
 cd /verif && timeout 3000 ./check $P --tier quick > $D/check_quick.log 2>&1; RCC=$?
 cd /repo && git checkout -q -- . && git status --short
+fi
 grep -E "^VIOLATION|^\[$P" $D/check_quick.log | head -5
 echo "check exit=$RCC"
 python3 - "$D" "$P" "$M" "$RCC" <<'PY'
